@@ -530,7 +530,7 @@ func checkC14Helpers(w *World, r *Report) {
 				if len(c.Common().Args) == 1 && c.Common().Args[0] == ssa.Value(fn.Params[1]) {
 					wh = append(wh, c)
 				}
-			case c.Common().IsInvoke() && c.Common().Method.Name() == "Write",
+			case c.Common().IsInvoke() && (c.Common().Method.Name() == "Write" || c.Common().Method.Name() == "WriteString"),
 				isFuncNamed(obj, "fmt", "Fprintf"), isFuncNamed(obj, "io", "Copy"), isFuncNamed(obj, "io", "WriteString"):
 				body = append(body, c)
 			}
@@ -550,6 +550,20 @@ func checkC14Helpers(w *World, r *Report) {
 			}
 		}
 		ru.Check("(*cTx)."+name, w.Pos(fn.Pos()), "content type, then status (the code argument), then body", ok, why)
+		if name == "String" {
+			// the body is the formatted text on every path: a raw write of the format string differs for "%%" and for
+			// verbs without operands
+			bad := ""
+			for _, b := range body {
+				c := b.(*ssa.Call)
+				if !isFuncNamed(calleeObj(c), "fmt", "Fprintf") {
+					bad = "body written without formatting at " + w.Pos(c.Pos())
+				} else if len(c.Call.Args) != 3 || c.Call.Args[1] != ssa.Value(fn.Params[2]) || c.Call.Args[2] != ssa.Value(fn.Params[3]) {
+					bad = "fmt.Fprintf at " + w.Pos(c.Pos()) + " is not called with the helper's format and values"
+				}
+			}
+			ru.Check("(*cTx).String body", w.Pos(fn.Pos()), "every body write is fmt.Fprintf(writer, format, values...)", bad == "" && len(body) > 0, orDefault(bad, "formatted on every path"))
+		}
 	}
 	rd := w.Method("cTx", "Redirect")
 	okR, why := false, "no call of http.Redirect"
